@@ -49,6 +49,15 @@ def run(pid, prop, results, seed):
     extra["shim_conformance"] = {"mismatches": [h for h in hits], "routine": "falsify shims (executable twins of the assumed specs vs std / file-ext)"}
     if hits:
         raise driver.Undecided("shim conformance test failed (an assumed contract is wrong): %s" % hits[0])
+    # 2b. second back end (only where a loop-free full-domain harness exists: the Base64 alphabet of C18)
+    if prop.get("kani"):
+        import kani_backend
+        k = kani_backend.run()
+        extra["second_back_end"] = k
+        if k.get("status") == "failed":
+            extra["falsifier_violation"] = {"routine": "kani", "case": "c18_table", "function": "Base64::convert_number_to_base64_char",
+                                            "input": "see output", "observed": k.get("output_tail", "")[-1500:]}
+            return extra
     # 3. exploration by the falsifier
     fz = prop.get("falsifier")
     if fz:
